@@ -97,6 +97,59 @@ Section Proofs.
     mget (kraus_to_choi K cj o (choi_to_kraus_from_eig K o evs)) x y = mget M x y.
   Proof. intros Hreal Hc x y Hx Hy. rewrite Hc by assumption. now apply kraus_reproduce_choi. Qed.
 
+  (* ---------- rank-deficient case: eigh returns all d^2 pairs, the code drops those below the threshold.
+     Contract: M = sum over ALL pairs of s_k^2 v_k v_k^dagger, s_k real, and every dropped pair has
+     eigenvalue s_k^2 = 0 (the idealised threshold).  Then the kept Kraus operators reproduce M. *)
+  Lemma lsum_filter {A} (keep : A -> bool) (g : A -> T) (l : list A) :
+    (forall x, In x l -> keep x = false -> g x = T0) ->
+    lsum (map g (filter keep l)) = lsum (map g l).
+  Proof.
+    induction l as [|x l IH]; intros H; [reflexivity|]. cbn [filter map Alg.lsum].
+    destruct (keep x) eqn:E; cbn [map Alg.lsum].
+    - rewrite IH; [reflexivity|]. intros y Hy. apply H. now right.
+    - rewrite IH by (intros y Hy; apply H; now right). rewrite (H x (or_introl eq_refl) E). ring.
+  Qed.
+
+  Theorem choi_to_kraus_rank_deficient o M keep (evs : list (T * vec T)) :
+    (forall sv, In sv evs -> cj (fst sv) = fst sv) ->
+    (forall sv, In sv evs -> keep sv = false -> fst sv *! fst sv = T0) ->
+    (forall x y, x < odim o * odim o -> y < odim o * odim o ->
+       mget M x y = lsum (map (fun sv => (fst sv *! fst sv) *! (vget (snd sv) x *! cj (vget (snd sv) y))) evs)) ->
+    forall x y, x < odim o * odim o -> y < odim o * odim o ->
+    mget (kraus_to_choi K cj o (choi_to_kraus_thresholded K o keep evs)) x y = mget M x y.
+  Proof.
+    intros Hreal Hdrop Hc x y Hx Hy. unfold choi_to_kraus_thresholded.
+    rewrite kraus_reproduce_choi; [| intros sv Hin; apply Hreal; apply filter_In in Hin; tauto | exact Hx | exact Hy].
+    rewrite (Hc x y Hx Hy). apply lsum_filter. intros sv Hin Hk. rewrite (Hdrop sv Hin Hk). ring.
+  Qed.
+
+  (* equal Choi matrices denote the same channel: so Ks -> kraus_to_choi -> (eigh, threshold) -> Ks'
+     gives a Kraus set Ks' (in general different operators, at most rank many) of the SAME channel *)
+  Theorem same_choi_same_channel o Ks Ks' rho m n :
+    (forall x y, x < odim o * odim o -> y < odim o * odim o ->
+       mget (kraus_to_choi K cj o Ks') x y = mget (kraus_to_choi K cj o Ks) x y) ->
+    m < odim o -> n < odim o ->
+    kraus_entry K cj (odim o) Ks' rho m n = kraus_entry K cj (odim o) Ks rho m n.
+  Proof.
+    intros HC Hm Hn. rewrite <- !(choi_acts K cj SR cj0 o _ rho m n Hm Hn).
+    unfold choi_action. cbv zeta. rewrite !(mget_mk K) by assumption.
+    apply (bsum_ext K). intros k Hk. apply (bsum_ext K). intros l Hl.
+    now rewrite HC by (apply vidx_lt; assumption).
+  Qed.
+
+  Corollary kraus_choi_kraus_roundtrip o Ks keep evs rho m n :
+    (forall sv, In sv evs -> cj (fst sv) = fst sv) ->
+    (forall sv, In sv evs -> keep sv = false -> fst sv *! fst sv = T0) ->
+    (forall x y, x < odim o * odim o -> y < odim o * odim o ->
+       mget (kraus_to_choi K cj o Ks) x y
+       = lsum (map (fun sv => (fst sv *! fst sv) *! (vget (snd sv) x *! cj (vget (snd sv) y))) evs)) ->
+    m < odim o -> n < odim o ->
+    kraus_entry K cj (odim o) (choi_to_kraus_thresholded K o keep evs) rho m n = kraus_entry K cj (odim o) Ks rho m n.
+  Proof.
+    intros Hreal Hdrop Hc Hm Hn. apply same_choi_same_channel; [|exact Hm|exact Hn].
+    intros x y Hx Hy. now apply (choi_to_kraus_rank_deficient o (kraus_to_choi K cj o Ks) keep evs).
+  Qed.
+
   (* ---------- channel networks: the tensor of QuantumChannel.from_operator(choi, inverse=True)
      built from a row-order Choi matrix has partition (input, output) and means the channel *)
   Lemma mget_mtrans r c M i j : i < c -> j < r -> mget (mtrans K r c M) i j = mget M j i.
